@@ -49,12 +49,12 @@ Definition to_answer (x : sx) : answer :=
 
 Definition of_outcome (o : outcome) : sx := match o with Returned => I 0 | Raised e => I e end.
 
-Definition report (before : mach) (m : mach) (o : outcome) : sx :=
+Definition report (c : cfg) (before : mach) (m : mach) (o : outcome) : sx :=
   let '(u, s, ot, a) := progress (mem m) in
   L [of_outcome o;
      L (map of_job (mem m));
      L (map of_djob (disk m));
-     L (map of_job (load (disk m)));
+     L (map of_job (load c (disk m)));
      L (map of_req (rlog m));
      of_nat_sx (length (scr before) - length (scr m));
      of_bool (udirty m);
@@ -62,17 +62,19 @@ Definition report (before : mach) (m : mach) (o : outcome) : sx :=
      of_nats [length (list_successful (mem m)); length (list_active (mem m));
               length (list_unsuccessful (mem m)); length (list_unsent (mem m))]].
 
-Fixpoint run_report (m : mach) (ops : list op) : list sx :=
+Fixpoint run_report (c : cfg) (m : mach) (ops : list op) : list sx :=
   match ops with
   | [] => []
   | o :: r =>
       let m0 := mkm (mem m) (disk m) (scr m) [] (udirty m) in
-      let '(m1, out) := step m0 o in
-      report m0 m1 out :: run_report m1 r
+      let '(m1, out) := step c m0 o in
+      report c m0 m1 out :: run_report c m1 r
   end.
 
-(* input: (ops script) ; output: one report per operation *)
-Definition x_jobgroup_run (x : sx) : sx :=
+(* input: (ops script) ; output: one report per operation. 1900 = the code as it is now, 1901 = before the repairs *)
+Definition x_jobgroup_run_cfg (c : cfg) (x : sx) : sx :=
   let ops := map to_op (to_list (nthx 0 x)) in
   let sc := map to_answer (to_list (nthx 1 x)) in
-  L (run_report (init sc) ops).
+  L (run_report c (init sc) ops).
+Definition x_jobgroup_run : sx -> sx := x_jobgroup_run_cfg cur.
+Definition x_jobgroup_run_old : sx -> sx := x_jobgroup_run_cfg old.
